@@ -17,6 +17,9 @@
     units.parse   <sys> <string>             -> ok <scale|nan> <offset> | err
     units.newdim  <sys> <string>             -> ok <scale|nan> <offset> | err
     units.item    <active> <default> <values> <calls>  -> observation;observation;…
+    units.kwitem  <KEYWORD.record.ITEM>      -> dim,dim,… | none        (JSON side of one parser item)
+    units.kwitemcount                        -> number of dimensioned items on the JSON side
+    units.sol     <sys> <calls F|T…> <m:x,x;m:x…>  -> <si 0|1> <m:x,x;…>   (data::Solution conversions)
 
   Exact operations (the op line carries the double the REAL code produced; the model evaluates
   the same expression exactly in `Rat`, derives the rigorous rounding bound `k·u·mag` of the
@@ -132,8 +135,34 @@ def showObs : Obs Float → String
   | .val x => "x:" ++ showFloat x
   | .err => "err"
 
+def parseCell (s : String) : Option (Nat × List Float) :=
+  match s.splitOn ":" with
+  | [m, xs] =>
+    match m.toNat?, parseList floatOfHex xs with
+    | some mi, some v => some (mi, v)
+    | _, _ => none
+  | _ => none
+
+def showCells (cs : List (Nat × List Float)) : String :=
+  if cs.isEmpty then "-" else
+  ";".intercalate (cs.map fun c => toString c.1 ++ ":" ++
+    (if c.2.isEmpty then "-" else ",".intercalate (c.2.map showFloat)))
+
 def handle (op : String) (args : List String) : String :=
   match op, args with
+  | "units.kwitem", [key] =>
+    match keywordItemDims.find? (·.1 == key) with
+    | some (_, ds) => ",".intercalate ds
+    | none => "none"
+  | "units.kwitemcount", [] => toString keywordItemDims.length
+  | "units.sol", [s, calls, cells] =>
+    match sysAt Float s, (if cells = "-" then some [] else (cells.splitOn ";").mapM parseCell) with
+    | some sd, some cs =>
+      let sol := calls.toList.foldl (fun (acc : Sol Float) c =>
+        if c = 'F' then acc.convertFromSI sd else if c = 'T' then acc.convertToSI sd else acc)
+        { si := true, cells := cs }
+      (if sol.si then "1 " else "0 ") ++ showCells sol.cells
+    | _, _ => "bad-op"
   | "units.nmeasure", [] => toString measureNames.length
   | "units.const", [name] =>
     match (constTable Float).find? (·.1 == name) with
